@@ -107,6 +107,7 @@ class VLoop(asyncio.BaseEventLoop):
 
     # --- teardown --------------------------------------------------------------
     def teardown(self, cap=2000):
+        self.survivors = 0
         with self.enter():
             for _ in range(50):
                 tasks = [t for t in asyncio.all_tasks(self) if not t.done()]
@@ -121,7 +122,8 @@ class VLoop(asyncio.BaseEventLoop):
                     if n > cap:
                         raise HarnessError('loop teardown does not quiesce')
             else:
-                raise HarnessError('tasks survive cancellation at teardown')
+                # tasks of the code under test that swallow every cancellation: left behind, and reported by the explorer
+                self.survivors = len([t for t in asyncio.all_tasks(self) if not t.done()])
         self._scheduled.clear()
         self._ready.clear()
         try:
